@@ -155,7 +155,7 @@ func c13Main(r *run.Runner) {
 		"(b) for every expression slot (70 positions: every expression-carrying operator, alone and followed/preceded by every other operator, nested join right-hand sides, let values) x every wrapper (13 nesting contexts) x every rule (built-in arities 0..4, $left/$right outside on, open identifiers in let values, unknown join kind, non-integer row counts, no / several tabular statements) the program with exactly one planted violation must fail and its unplanted twin must compile; " +
 		"every grammar-corpus program that breaks no rule must compile; non-trivial = Compile was reached with a program that parses; distinct by construction"
 	r.Assume = []string{"rule list is the one in the property statement", "$left/$right as table or alias names and render property values are not expression references"}
-	b1 := tokenSweeps(r, 3, 5, c13Either)
+	b1 := tokenSweeps(r, 3, 4, c13Either)
 	b2 := corruptionSweep(r, c13Either)
 	slots := c13Slots()
 	mustFail := func(w *run.Worker, src, rule string) {
